@@ -23,6 +23,8 @@ META = {
     "level_note": "Bounds: <= 3 files, one name per C02 family (two in the C03 families), x86-64, non-PIE executables, data symbols, no COMDAT groups, no symbol versions. Which shared object provides a dynamic definition is not observed (only that the reference is dynamic). Cases where GNU ld and lld disagree with each other and neither supports the rule are not judged.",
     "engine": "tlc",
 }
+# deviations this property owns (the others are recorded under the property they belong to)
+OWN = {"quirks": {"uniqWeak", "weakZero"}, "loading": False}
 ASPECTS = ("error", "bind")
 
 
@@ -40,7 +42,7 @@ def run(ctx):
     plan = [("mc/SymRes_c02_quick.cfg", 900, 5 if ctx.quick else 1), ("mc/SymRes_c02_dup.cfg", 600, 2 if ctx.quick else 1)]
     if not ctx.quick:
         plan.append(("mc/SymRes_c02_triple.cfg", 2400, 1))
-    cov = symres.run_plan(ctx, PROP, plan, ASPECTS, "both", oracle_known, skip_load_divergent=True)
+    cov = symres.run_plan(ctx, PROP, plan, ASPECTS, "both", oracle_known, skip_load_divergent=OWN)
     return {
         "level": "model_checking",
         "coverage": cov,
